@@ -337,6 +337,12 @@ func init() {
 			}
 			return regexp.MustCompile(str(a[1])).MatchString(str(a[0]))
 		},
+		"Contains": func(fr *frame, a []value) value {
+			if isSymStr(a[0]) || isSymStr(a[1]) {
+				return boolTerm("(str.contains " + strTerm(a[0]) + " " + strTerm(a[1]) + ")")
+			}
+			return strings.Contains(str(a[0]), str(a[1]))
+		},
 		"HasPrefix": func(fr *frame, a []value) value {
 			if isSymStr(a[0]) || isSymStr(a[1]) {
 				return boolTerm("(str.prefixof " + strTerm(a[1]) + " " + strTerm(a[0]) + ")")
